@@ -13,3 +13,8 @@ func GenerateFor(prop string, seed uint64, tier string, auto bool) *Spec {
 	}
 	return s
 }
+
+// FixedClock is set by the engine-A worker: the auto-yield copy of the
+// library then reads a fixed instant instead of the wall clock (engine A's
+// oracles do not look at the clock; engine B simulates it).
+var FixedClock bool
